@@ -127,6 +127,14 @@ impl EdgeRtreeInputPlugin {
             .map_err(CompassConfigurationError::IoError)?
             .into_vec();
 
+        if let Some(row) = geometries.iter().position(|g| g.0.is_empty()) {
+            let msg = format!(
+                "edge_rtree: geometries file has an empty linestring at row {}",
+                row
+            );
+            return Err(CompassConfigurationError::UserConfigurationError(msg));
+        }
+
         let rcl_len_opt = road_class_lookup.as_ref().map(|l| l.len());
         let geo_len = geometries.len();
         if let Some(rcl_len) = rcl_len_opt {
